@@ -288,11 +288,15 @@ def run_scenario(sc: dict) -> list:
 
     trace: list = [{"k": "stream", "feat": sc.get("feat", "plain"), "tags": list(sc.get("tags", []))}]
     # reference: whole-stream delivery
-    ref = SegRun(cstream, responses, lambda ev: None)
+    edits = {}
+    for k, v in (sc.get("edits") or {}).items():
+        tag, hook = k.split(":")
+        edits[(int(tag), hook)] = v
+    ref = SegRun(cstream, responses, lambda ev: None, edits=edits)
     ref.flush()
     trace.append(dict({"k": "ref"}, **ids(ref.summary())))
     # the segmentation under test
-    run = SegRun(cstream, responses, trace.append, labels=labels)
+    run = SegRun(cstream, responses, trace.append, labels=labels, edits=edits)
     piece_mode = sc.get("unit", "piece") == "piece"
     cidx = 0  # client pieces delivered
     for op in sc["ops"]:
@@ -392,7 +396,14 @@ def byte_streams(rng: random.Random, n: int) -> dict:
         client.append(["-", lat(g.request_bytes(rc, i, rng))])
         data = g.response_bytes(dict(sc, nobody=nobody), i, rng).replace(b"X-Re: %d" % i, b"X-Re: ?")
         responses.append({"pieces": [["-", lat(data)]], "close": bool(sc["close"])})
-    return {"client": client, "responses": responses, "feat": "plain", "tags": list(range(1, n + 1)), "unit": "byte"}
+    edits = {}
+    for i in range(1, n + 1):  # streamed bodies: forwarded piecewise, the outcome must still be the same
+        if rng.random() < 0.25:
+            edits["%d:requestheaders" % i] = "stream"
+        if rng.random() < 0.25:
+            edits["%d:responseheaders" % i] = "stream"
+    return {"client": client, "responses": responses, "feat": "plain", "tags": list(range(1, n + 1)), "unit": "byte",
+            "edits": edits}
 
 
 class Check(core.PropertyCheck):
@@ -457,13 +468,13 @@ class Check(core.PropertyCheck):
     def scenarios(self, ctx, models):
         g = models[0].graph
         behs = g.edge_cover(ctx.rng, max_len=30, tail=12)
-        behs += g.random_walks(ctx.rng, 400 if ctx.quick else 6000, 30)
+        behs += g.random_walks(ctx.rng, 400 if ctx.quick else 2500, 30)
         for b in behs:
             if b[-1][0] != "Finish":
                 continue
             yield core.Scenario(self.concretise(b), predicted=core.predicted_events(b), source="model")
         if not ctx.quick:
-            behs2, _r = ctx.simulate(self.MODEL, self.model_constants("thorough"), num=3000, depth=40)
+            behs2, _r = ctx.simulate(self.MODEL, self.model_constants("thorough"), num=1500, depth=40)
             for b in behs2:
                 if b[-1][0] == "Finish":
                     yield core.Scenario(self.concretise(b), predicted=core.predicted_events(b), source="simulate")
@@ -485,9 +496,9 @@ class Check(core.PropertyCheck):
             yield core.Scenario(dict(base, ops=[["c", 1]] * clen), source="cuts")
             yield core.Scenario(dict(base, ops=[["c", 1 << 20]] + [["s", 1]] * (slen + 4)), source="cuts")
             yield core.Scenario(dict(base, ops=[x for _ in range(max(clen, slen)) for x in (["c", 1], ["s", 1])]), source="cuts")
-            for _ in range(40 if ctx.quick else 400):
+            for _ in range(40 if ctx.quick else 150):
                 yield core.Scenario(dict(base, ops=random_ops(rng, clen, slen)), source="cuts")
-        for _ in range(60 if ctx.quick else 1500):
+        for _ in range(60 if ctx.quick else 600):
             base = byte_streams(rng, rng.randint(1, 4))
             clen = sum(len(b) for _, b in base["client"])
             slen = sum(len(p[1]) for r in base["responses"] for p in r["pieces"])
